@@ -240,6 +240,31 @@ def algebra_contract() -> list[tuple[str, list[str]]]:
     chk('FrozenParameterGate(U3,{1:1.1})',
         G.FrozenParameterGate(G.U3Gate(), {1: 1.1}).get_unitary([0.3, -0.7]),
         U)
+    # frozen parameters: every subset of up to three indices, the dict built
+    # in every key order; the free values fill the remaining slots in order
+    for inner in (G.U3Gate(), G.U8Gate()):
+        npar = inner.num_params
+        vals = [0.21 * (i + 1) * (-1) ** i for i in range(npar)]
+        for k in (1, 2, 3):
+            for keys in itertools.permutations(range(npar), k):
+                if npar > 3 and k == 3 and sum(keys) % 5:
+                    continue            # a fifth of the ordered triples
+                fz = {i: vals[i] + 1.0 for i in keys}
+                free = [vals[i] for i in range(npar) if i not in fz]
+                full = [fz.get(i, vals[i]) for i in range(npar)]
+                g = G.FrozenParameterGate(inner, fz)
+                nm = 'FrozenParameterGate(%s, frozen keys in order %s)' % (
+                    inner.name, keys)
+                chk(nm, g.get_unitary(free), inner.get_unitary(full))
+                fidx = [i for i in range(npar) if i not in fz]
+                if fidx:
+                    chk(nm + ' gradient', np.asarray(g.get_grad(free)),
+                        np.asarray(inner.get_grad(full))[fidx])
+                same = G.FrozenParameterGate(
+                    inner, {i: fz[i] for i in sorted(fz)})
+                if not (same == g and hash(same) == hash(g)):
+                    out.append((nm, ['not equal to the gate built from the '
+                                     'same items in ascending order']))
     # controls: (I - Pc) (x) I + Pc (x) G, controls are the leading qudits
     def controlled(Gm: Any, crad: list[int], levels: list[list[int]]) -> Any:
         d = Gm.shape[0]
